@@ -287,6 +287,70 @@ def predictProba (loss : LossKind) (O : Mat α) : Mat α :=
     | .crossEntropy => O
     | .binaryCrossEntropy => Mat.mk' O.r O.c fun i k => O.get i k / sumTo O.c fun l => O.get i l
 
+/-! ### configuration (layer.py `get_layer`, base_layer.py `BaseLayer.__init__`, activation.py `get_activation`,
+loss.py `get_loss`, utils.py `check_loss`, `check_output`) -/
+
+/-- `'x' in s` -/
+def hasSub (s sub : String) : Bool := (s.splitOn sub).length > 1
+
+/-- `get_activation(name)` for a string -/
+def getActivation (name : String) : Except PyErr Act :=
+  let a := name.toLower
+  if a == "identity" || a == "" then .ok .identity
+  else if a == "relu" then .ok .relu
+  else if a == "sigmoid" then .ok .sigmoid
+  else if a == "softmax" then .ok .softmax
+  else .error .valueError
+
+/-- `get_loss(name)` for a string -/
+def getLoss (name : String) : Except PyErr LossKind :=
+  let l := name.toLower.replace " " ""
+  if l == "crossentropy" || l == "ce" then .ok .crossEntropy
+  else if l == "binarycrossentropy" || l == "bce" then .ok .binaryCrossEntropy
+  else .error .valueError
+
+/-- the activation a loss applies to the signal (`CrossEntropy(BaseLoss, Softmax)`, `BinaryCrossEntropy(BaseLoss, Sigmoid)`) -/
+def lossAct : LossKind → Act
+  | .crossEntropy => .softmax
+  | .binaryCrossEntropy => .sigmoid
+
+/-- `self.normalization = normalization.lower()`; `forward` knows 'left', 'right', 'both' -/
+def getNorm (name : String) : Norm :=
+  let n := name.toLower
+  if n == "left" then .left else if n == "right" then .right else if n == "both" then .both else .none
+
+/-- The decisions of `get_layer` + `BaseLayer.__init__` + `check_loss` on the parsed arguments: `isSage` / `isConv` =
+'sage' / 'conv' occurs in the lower-cased layer name, `act` / `loss` = what `get_activation` / `get_loss` answered.
+A GraphSAGE layer forces left normalisation and the self-embedding; a loss replaces the activation; cross-entropy on
+one output channel becomes binary cross-entropy. -/
+def resolveParsed (isSage isConv : Bool) (act : Except PyErr Act) (loss : Option (Except PyErr LossKind)) (norm : Norm)
+    (selfEmb : Bool) (outChannels : Nat) : Except PyErr (LayerCfg × Option LossKind) := do
+  let (norm, se) ←
+    if isSage then pure (Norm.left, true)
+    else if isConv then pure (norm, selfEmb)
+    else throw PyErr.valueError
+  match loss with
+  | none =>
+    let a ← act
+    pure ({ norm := norm, selfEmb := se, act := a }, none)
+  | some l =>
+    let k ← l
+    let k := if k == .crossEntropy && outChannels == 1 then LossKind.binaryCrossEntropy else k
+    pure ({ norm := norm, selfEmb := se, act := lossAct k }, some k)
+
+/-- `get_layer(layer, activation=…, normalization=…, self_embeddings=…, loss=…)` for a string `layer`, followed by
+`check_loss` when it carries a loss.  Returns the configuration of the layer and the loss it carries (if any). -/
+def resolveLayer (layer activation : String) (loss : Option String) (normalization : String) (selfEmb : Bool)
+    (outChannels : Nat) : Except PyErr (LayerCfg × Option LossKind) :=
+  let name := layer.toLower
+  resolveParsed (hasSub name "sage") (hasSub name "conv") (getActivation activation) (loss.map getLoss)
+    (getNorm normalization) selfEmb outChannels
+
+/-- `check_output(n_channels, labels)`: more than two distinct labels need as many channels -/
+def checkOutput (nChannels : Nat) (labels : List Nat) : Except PyErr Unit :=
+  let nLabels := labels.eraseDups.length
+  if nLabels > 2 && nLabels > nChannels then .error .valueError else .ok ()
+
 /-! ### `UniformNeighborSampler.__call__` -/
 
 /-- The sampled adjacency: in row `i` (stored positions `0 … deg-1`) the data are zeroed, the chosen positions
